@@ -59,7 +59,12 @@ pub trait RollingFinal<T>: Vec1View<T> {
             window,
             |arr| {
                 let acc_func = |acc: f64, (v, c): (T, f64)| acc + v.cast() * c;
-                arr.titer().zip(coef.titer()).fold(0., acc_func).cast()
+                // during warm-up the window is shorter than coef: align on the newest element
+                let skip = coef.len() - arr.len();
+                arr.titer()
+                    .zip(coef.titer().skip(skip))
+                    .fold(0., acc_func)
+                    .cast()
             },
             out,
         )
